@@ -91,7 +91,10 @@ func (fr *Frame) doCall(ins ssa.Instruction, c *ssa.CallCommon, args []Val, rt t
 		return v, true
 	}
 	ct := q.eng.contractFor(callee, q.opts)
-	if ct != nil && !(fr.parent == nil && callee == fr.fn && false) {
+	if ct != nil && len(ct.Requires) == 0 && len(ct.Ensures) == 0 && fr.canInline(callee) {
+		ct = nil // a contract that only carries loop clauses (closures): the body is executed in place
+	}
+	if ct != nil {
 		return fr.modularCall(ins, callee, ct, c, args, rt), true
 	}
 	if fr.canInline(callee) {
@@ -234,7 +237,7 @@ func (fr *Frame) modularCall(ins ssa.Instruction, callee *ssa.Function, ct *Cont
 	for i, en := range ct.Ensures {
 		t, err := env.evalBool(en.Expr)
 		if err != nil {
-			if !ct.Default {
+			if !ct.Default && !en.Inherited {
 				q.note(fmt.Sprintf("contract of %s: ensures %d: %v", fnKey(callee), i, err))
 			}
 			continue
@@ -753,7 +756,18 @@ var ghostLoopHavoc = map[string]bool{}
 
 func (fr *Frame) loopSpecFor(li *loopInfo) *LoopSpec {
 	ct := fr.contract
-	if ct == nil || fr.parent != nil {
+	if fr.parent != nil {
+		// an inlined closure or helper: its own written contract (loop clauses only) applies to its loops
+		ct = fr.q.eng.Contracts[fnKey(fr.fn)]
+		if ct == nil {
+			return nil
+		}
+		if w := ct.Loops[li.ordinal]; w != nil {
+			return &LoopSpec{Invariants: append([]Clause(nil), w.Invariants...), Decreases: w.Decreases}
+		}
+		return nil
+	}
+	if ct == nil {
 		return nil
 	}
 	ls := &LoopSpec{}
